@@ -37,6 +37,7 @@ pub fn oracle_eval(name: &str, detail: &str) -> Option<bool> {
             let g = |k: &str| m.get(k).cloned();
             Some(crate::serde_probe::deserialized_cc14_in_range(&g("c")?, &g("m")?, &g("v")?).unwrap_or(true))
         }
+        "c04-constructed-message-in-range" => crate::ctors::range_oracle(&m),
         "cc-roundtrip" => {
             let (c, msb, value): (u32, u32, u32) = (num(&m, "ch")?, num(&m, "msb")?, num(&m, "value")?);
             let mut sc = ControlChange14BitMessageScanner::new();
